@@ -354,6 +354,9 @@ def run(ctx: Context, rep) -> None:
            "filled in update order")
 
     rustrules.check_rotation(ctx, rep, "C03.rust")
+    from sa.rules import shared as _shared
+    _shared.check_fresh_pass(ctx, rep, "C03.fresh-pass")
+
 
 
 def eval_local(r, expr: ast.AST):
